@@ -17,7 +17,7 @@ ASSUMPTIONS = ['policy elements whose tagged segments fall outside the modelled 
                'direct oracle only (counted as unmodelled)']
 
 
-def run(ctx):
+def _run(ctx):
     out = Outcome()
     rng = ctx.rng
     n = ctx.budget(3000, 150000)
@@ -161,6 +161,16 @@ def _mutation_during_decision(ctx, out, rng):
                         'Vakt.C01.decide_veto / decide_iff')
             f.signature = 'mutation-during-decision'
             out.failures.append(f)
+
+
+def run(ctx):
+    # a third of the string inquiry values are instances of a str subclass (an Enum-with-str-mixin member, a tagged
+    # string type): they are equal to, and must be matched like, their text
+    proto.EXOTIC_STR[0] = True
+    try:
+        return _run(ctx)
+    finally:
+        proto.EXOTIC_STR[0] = False
 
 
 def replay(ctx, rp):
